@@ -29,7 +29,7 @@ def build(ck):
 
 RULE = ("configurations = MaxEvaluationCost {60,400} x MaxCallDepth {6,12} x StackSize {40,80} x MaxArraySize=MaxMappingSize {8,64} x "
         "MaxStringLength {32,200} x MaxBufferSize {16,64} (quick: the base configuration and the 6 one-factor changes; thorough: all 64), "
-        "each a separate boot; programs (260 per configuration): 8 loop forms (while(1), for(;;), do-while, while(i--), for with constant / "
+        "each a separate boot; programs (261 per configuration): 8 loop forms (while(1), for(;;), do-while, while(i--), for with constant / "
         "local bound, nested foreach over array / mapping) x 7 bodies (empty, call, catch(expr), catch{block}, efun with callback, "
         "catch of an endless loop, call_other); catch nestings 1..3 around an endless loop, a loop after a caught one, while(1) around "
         "catch(catch(loop)); endless recursion: direct, mutual, 3-cycle, through local/functional/anonymous/efun/bound function pointers, "
@@ -49,7 +49,8 @@ ASSUME = ["the program under test is compiled and create()d with a large budget;
           "value builders and refused-then-used programs run with MaxEvaluationCost 200000 (they are about the size limits)",
           "sizes are checked for the value on top of the stack at every instruction boundary and for everything reachable at the end of "
           "the evaluation, not for values buried deeper in the stack in between",
-          "class instances have no configured size limit"]
+          "class instances have no configured size limit",
+          "the text of a driver error message (the value catch yields) is not judged against MaxStringLength: it is not built by an operator or efun"]
 
 
 def fix_replays(ck):
